@@ -13,6 +13,11 @@ Obligations, evaluated after *every* operation of every history on every coordin
     add: returned indices identify the newly stored coordinates (one batch index per new key, pointing at that key)
 Values are distinct powers of two (position-coded), so every sum is exact and a value in a wrong slot cannot be mistaken.
 
+Value kinds (added): the statement does not fix the dtype in which a batch hands over its values, so batches are also given as int64,
+float32 and float64 with a non-integer part, mixed within a history (1-d trees exhaustive over 4 kinds, seeded 1/2/3-d histories).  The
+dictionary holds the numbers handed over as Python floats: a coordinate first stored from an integer-typed batch must afterwards hold a
+non-integer overwrite / sum exactly, and such an add() must return normally.  Signatures of this family name the value kinds.
+
 History tree: the object is deep-copied at each node, so all histories sharing a prefix share its execution.  A subtree is cut
 at the first failing operation (later states are corrupt; this keeps one failure class per signature).
 
@@ -53,7 +58,9 @@ META = {
     "text": "Bounded assurance: every history of <= 3 batches (batch length <= 2 in quick, <= 3 in thorough for 1-d; see the sweep rules) over "
             "coordinates {0,1,2} (1-d) and {0,1}^2 (2-d), additive and overwriting mixed, is executed on the real class and compared with a "
             "dict after each operation. np.unique(axis=1) and KDTree keep the body out of the symbolic engine. Vector values (value_dim 2) and "
-            "3-d coordinates are seeded samples only.",
+            "3-d coordinates are seeded samples only. Value kinds: batches given as int64 / float32 / non-integer float64 mixed within a history "
+            "(1-d: every history of <= 2 batches of length <= 2 and of 3 batches of length 1 in quick; seeded 1/2/3-d samples); the dict holds "
+            "the handed-over numbers as floats, so storage that keeps the dtype of the first batch is caught.",
     "note": "trusted: Python dict semantics, copy.deepcopy of the object between history branches; values are powers of two (exact sums)",
 }
 
@@ -78,11 +85,13 @@ class _Model:
         self.D = {}
         self.order = []  # insertion order of keys (new keys of one batch in sorted order)
         self.value_dim = value_dim
+        self.kinds = []  # value kind (dtype / integer or not) of each non-empty batch so far; signatures only
 
     def clone(self):
         m = _Model(self.value_dim)
         m.D = dict(self.D)
         m.order = list(self.order)
+        m.kinds = list(self.kinds)
         return m
 
     def apply(self, coords, values, additive):
@@ -99,7 +108,24 @@ class _Model:
         return new
 
 
-def _signature(model_before, coords, additive):
+VALUE_KINDS = [("int64", False), ("float64", True), ("float32", False), ("float64", False)]
+
+
+def _kind_name(vdtype, frac):
+    return vdtype + (" non-integer" if frac else (" integer-valued" if vdtype.startswith("float") else ""))
+
+
+def _signature(model_before, coords, additive, vdtype="float64", frac=False):
+    sig = _signature0(model_before, coords, additive)
+    default = _kind_name("float64", False)
+    kind = _kind_name(vdtype, frac)
+    earlier = sorted(set(model_before.kinds))
+    if kind == default and all(k == default for k in earlier):
+        return sig
+    return sig + "; batch values given as %s, earlier batches as %s" % (kind, ", ".join(earlier) if earlier else "nothing")
+
+
+def _signature0(model_before, coords, additive):
     existing = sorted({c for c in coords if c in model_before.D})
     pos = [model_before.order.index(c) for c in existing]
     dup = len(set(coords)) < len(coords)
@@ -174,15 +200,20 @@ def _check_state(arr, model, box, dim):
     return bad
 
 
-def _do_add(arr, model, coords, depth, additive):
-    """Apply one batch to the object and to the model.  Returns (violations, model_after)."""
+def _do_add(arr, model, coords, depth, additive, vdtype="float64", frac=False):
+    """Apply one batch to the object and to the model.  Returns (violations, model_after).
+
+    vdtype: numpy dtype in which the value array is handed to add(); frac: the values get a non-integer part 2**-(1+4*depth+pos) (float
+    dtypes only).  The dictionary holds, as Python floats, exactly the numbers that were handed over."""
     vd = model.value_dim
-    vals = [tuple(_val(depth, p, k) for k in range(vd)) for p in range(len(coords))]
-    varr = np.array(vals, dtype=float).T if vd > 1 else np.array([v[0] for v in vals], dtype=float)
-    if vd > 1 and not coords:
-        varr = np.zeros((vd, 0))
+    raw = [[_val(depth, p, k) + (2.0 ** -(1 + 4 * depth + p) if frac else 0.0) for k in range(vd)] for p in range(len(coords))]
+    given = np.array(raw, dtype=float).reshape(len(coords), vd).T.astype(vdtype)  # (vd, n), in the dtype handed to add()
+    vals = [tuple(float(given[k, p]) for k in range(vd)) for p in range(len(coords))]
+    varr = given if vd > 1 else given[0]
     after = model.clone()
     new = after.apply(coords, vals, additive)
+    if coords:
+        after.kinds.append(_kind_name(vdtype, frac))
     try:
         ret = arr.add([np.array(c, dtype=int) for c in coords], varr, additive=additive)
     except Exception as e:  # noqa
@@ -207,6 +238,25 @@ def _batches(box, maxlen):
     return out
 
 
+def _kinded(batches, kinds):
+    """every batch with its values given in every kind (dtype, non-integer flag); the empty batch once"""
+    out = []
+    for coords, additive in batches:
+        for vdtype, frac in (kinds if coords else kinds[:1]):
+            out.append((coords, additive, vdtype, frac))
+    return out
+
+
+def _hist_json(h):
+    out = []
+    for b in h:
+        e = {"coords": [list(c) for c in b[0]], "additive": b[1]}
+        if len(b) > 2:
+            e["vdtype"], e["frac"] = b[2], b[3]
+        out.append(e)
+    return out
+
+
 def _explore(rep, sw, pp, dim, box, value_dim, batch_sets, label):
     """Depth-first over the history tree; batch_sets[d] = admissible batches at depth d."""
     SparseNdArray = pp.array_operations.SparseNdArray
@@ -218,21 +268,24 @@ def _explore(rep, sw, pp, dim, box, value_dim, batch_sets, label):
         d = len(hist)
         if d >= len(batch_sets):
             continue
-        for coords, additive in batch_sets[d]:
+        for batch in batch_sets[d]:
+            coords, additive = batch[0], batch[1]
+            kind = tuple(batch[2:])  # () or (vdtype, frac)
             child = copy.deepcopy(arr)
-            bad, after = _do_add(child, model, list(coords), d, additive)
+            bad, after = _do_add(child, model, list(coords), d, additive, *kind)
             if not bad:
                 bad = _check_state(child, after, box, dim)
-            h = hist + ((coords, additive),)
+            h = hist + (batch,)
             touched_existing = any(c in model.D for c in coords)
             nontrivial = touched_existing or len(set(coords)) < len(coords)
+            if kind:  # value-kind family: the batch must meet a coordinate stored from values of another kind
+                nontrivial = touched_existing and len(set(after.kinds)) > 1
             sw.case((label, h), nontrivial=nontrivial,
-                    sample={"dim": dim, "value_dim": value_dim, "history": [{"coords": [list(c) for c in cs], "additive": a} for cs, a in h]})
+                    sample={"dim": dim, "value_dim": value_dim, "history": _hist_json(h)})
             if bad:
-                sig = _signature(model, list(coords), additive)
+                sig = _signature(model, list(coords), additive, *kind)
                 for ob, detail in bad:
-                    rep.violation(ob, sig, inputs={"dim": dim, "value_dim": value_dim,
-                                                   "history": [{"coords": [list(c) for c in cs], "additive": a} for cs, a in h]},
+                    rep.violation(ob, sig, inputs={"dim": dim, "value_dim": value_dim, "history": _hist_json(h)},
                                   detail=detail, confirmed=True)
                 nviol += 1
                 continue  # state is corrupt below this node
@@ -252,11 +305,12 @@ def run_history(pp, dim, value_dim, history, box=None):
         box = list(itertools.product(*[range(lo[k], hi[k] + 2) for k in range(dim)]))
     for d, b in enumerate(history):
         coords = [tuple(c) for c in b["coords"]]
-        bad, after = _do_add(arr, model, coords, d, b["additive"])
+        kind = (b.get("vdtype", "float64"), bool(b.get("frac", False)))
+        bad, after = _do_add(arr, model, coords, d, b["additive"], *kind)
         if not bad:
             bad = _check_state(arr, after, box, dim)
         if bad:
-            return [(ob, det, _signature(model, coords, b["additive"])) for ob, det in bad]
+            return [(ob, det, _signature(model, coords, b["additive"], *kind)) for ob, det in bad]
         model = after
     return []
 
@@ -268,7 +322,8 @@ def run(rep):
     rng = rep.rng
     rep.under_contract("pp.array_operations.SparseNdArray.add", "pp.array_operations.SparseNdArray.get",
                        "pp.array_operations.intersect_sets (through its callers)")
-    rep.assume("coordinates are integer arrays of length dim; values float64 (distinct powers of two, so sums are exact)",
+    rep.assume("coordinates are integer arrays of length dim; values float64 (distinct powers of two, so sums are exact); in the value-kind "
+               "sweep int64 / float32 / float64 arrays holding powers of two plus, for non-integer float64, 2^-(1+4*depth+pos) (sums exact)",
                "copy.deepcopy(SparseNdArray) yields an independent object with the same observable state (used to share history prefixes)")
     rep.trust("Python dict as the abstract view", "numpy array comparison")
     rep.explanation = ("B only: exhaustive history tree in a small coordinate box; the dictionary view is compared with get() on every "
@@ -345,6 +400,55 @@ def run(rep):
                 for c in b["coords"]:
                     seen.add(tuple(c))
             sw.case(("seeded", kind, repr(hist)), nontrivial=touched, sample={"dim": dim, "value_dim": vd, "history": hist})
+            for ob, det, sig in bad:
+                rep.violation(ob, sig, inputs={"dim": dim, "value_dim": vd, "history": hist}, detail=det, confirmed=True)
+
+    # Value-kind family: the statement speaks of "the value a plain dictionary would hold" -- it does not restrict the dtype in which a
+    # batch hands over its values (the library's own tests pass integer arrays).  The storage must hold every later non-integer value
+    # and every sum exactly as the dictionary does, whatever the dtype of the batch that first stored the coordinate.
+    with rep.sweep(
+        "value kinds: batches given as int64 / float32 / float64 (integer-valued or not), mixed within a history",
+        rule="1-d coordinates {0,1,2}: every history of <= 2 batches of length <= 2 (thorough: <= 3) and every history of 3 batches of "
+             "length 1 (third batch int64 or non-integer float64 only; thorough: lengths (1, <=2, <=2), all kinds), each non-empty batch given in each of the 4 value kinds (int64, float64 with "
+             "a non-integer part 2^-(1+4*depth+pos), float32, float64 integer-valued), additive and overwriting; thorough adds every 2-d "
+             "history over {0,1}^2 of <= 2 batches of length <= 2; plus seeded histories of 2-4 batches of length 0-4 in 1-d (value_dim 2), "
+             "2-d and 3-d boxes with a random kind per batch; the dictionary holds the numbers handed over as Python floats; same "
+             "read-back of the whole box after every operation; nontrivial = the last batch touches an existing coordinate and the "
+             "history mixes >= 2 value kinds; distinct by the history",
+        bound="<= 3 batches (exhaustive part), 4 value kinds, %d seeded histories" % (300 if quick else 20000),
+        exhaustive=False,
+    ) as sw:
+        k1, k2, k3 = (_kinded(_batches(box1, n), VALUE_KINDS) for n in (1, 2, 3))
+        if quick:
+            _explore(rep, sw, pp, 1, box1, 1, [k2, k2], "1d-kinds-22")
+            _explore(rep, sw, pp, 1, box1, 1, [k1[1:], k1[1:], _kinded(_batches(box1, 1), VALUE_KINDS[:2])[1:]], "1d-kinds-111")
+        else:
+            _explore(rep, sw, pp, 1, box1, 1, [k3, k3], "1d-kinds-33")
+            _explore(rep, sw, pp, 1, box1, 1, [k1[1:], k2, k2], "1d-kinds-122")
+            kc2 = _kinded(_batches(box2, 2), VALUE_KINDS)
+            _explore(rep, sw, pp, 2, box2, 1, [kc2, kc2], "2d-kinds-22")
+        for it in range(300 if quick else 20000):
+            fam = it % 3
+            if fam == 0:
+                dim, vd, box = 1, 2, [(k,) for k in range(4)]
+            elif fam == 1:
+                dim, vd, box = 2, 1, list(itertools.product(range(-1, 2), repeat=2))
+            else:
+                dim, vd, box = 3, rng.randint(1, 2), list(itertools.product((0, 1), repeat=3))
+            hist = []
+            for d in range(rng.randint(2, 4)):
+                vdtype, frac = rng.choice(VALUE_KINDS)
+                hist.append({"coords": [list(rng.choice(box)) for _ in range(rng.randint(0, 4))], "additive": rng.random() < 0.5,
+                             "vdtype": vdtype, "frac": frac})
+            bad = run_history(pp, dim, vd, hist, box)
+            seen, touched = set(), False
+            for b in hist:
+                for c in b["coords"]:
+                    touched = touched or tuple(c) in seen
+                for c in b["coords"]:
+                    seen.add(tuple(c))
+            mixed = len({(b["vdtype"], b["frac"]) for b in hist if b["coords"]}) > 1
+            sw.case(("kinds-seeded", fam, repr(hist)), nontrivial=touched and mixed, sample={"dim": dim, "value_dim": vd, "history": hist})
             for ob, det, sig in bad:
                 rep.violation(ob, sig, inputs={"dim": dim, "value_dim": vd, "history": hist}, detail=det, confirmed=True)
 
